@@ -36,7 +36,7 @@ BIN = {'quick': ['gen/MC_C07cbor_q.cfg', 'gen/MC_C07msgpack_q.cfg', 'gen/MC_C07u
 
 def bsig(r):
     c = r['case'] if isinstance(r.get('case'), dict) else {}
-    s = {'format': c.get('f'), 'bytes': bytes(c.get('b', [])).hex()}
+    s = {'format': c.get('f'), 'bytes': bytes(c.get('b', [])).hex() if 'b' in c else 'long a=%s b=%s head=%s' % (c.get('a'), c.get('b_'), bytes(c.get('prog', [[[]]])[0][0]).hex())}
     for k in ('delivery', 'base_ok', 'got_ok'):
         if k in r:
             s[k] = r[k]
@@ -75,6 +75,7 @@ def run(tier):
     # binary formats: every byte string of the C07 spaces through bytes / stream (buffer sizes 1..9, default) / iterator sources, reader and cursor
     bbin = vf.build('c03bin', ['c03bin.cpp'])
     gb = [vf.tlc_gen('gen/MC_C07', c, timeout=2400) for c in BIN[tier] if os.path.exists(os.path.join(vf.SPEC, c))]
+    gb.append(vf.tlc_gen('gen/MC_C03long', 'gen/MC_C03long.cfg', timeout=600))      # two items longer than the source chunk size after a scratch-buffer item
     tb = vf.g_replay(rep, bbin, gb, bsig)
     totals['deliveries'] = totals.get('deliveries', 0) + tb.get('deliveries', 0)
     totals['cases'] = totals.get('cases', 0) + tb.get('cases', 0)
@@ -109,7 +110,7 @@ def replay(path):
     case = d['case'] if isinstance(d.get('case'), dict) else {}
     if 'csv' in case:
         binary = vf.build('c03csv', ['c03csv.cpp'])
-    elif 'b' in case and 'f' in case:
+    elif ('b' in case or 'prog' in case) and 'f' in case:
         binary = vf.build('c03bin', ['c03bin.cpp'])
     else:
         binary = vf.build('c03', ['c03.cpp'])
